@@ -105,4 +105,39 @@ CHECKS = {
         quick=dict(stages=[st(4000, timeout=900)]),
         thorough=dict(stages=[st(6000, shards=16, timeout=3000)]),
     ),
+    "C13": dict(
+        pkg="c13", level="exploration",
+        rule="rapid-generated Storage cases (monotone level-volume-area tables and min/max release curves with minRelease <= maxRelease, 2..6 points, zero release/area at zero volume; DeltaT 3600..86400; inflow/demand/rainfall/PET series in filling, drawing-down, alternating and balanced modes; initial volume 0, from a previous run, or drawn up to 1.3x full supply); "
+             "oracle: per-step dV = (inflow - outflow)*dt + (rainfallVolume - evaporationVolume)*dt within 1e-9 relative, V >= 0, final level/area = own interpolation of the tables, clamp(demand, minRel, maxRel) at the lower/upper volume traversed bounds the outflow (with the integrator's own acceptance slack), more only as spill when the volume reached the top of the table. "
+             "Non-trivial = rain/evaporation acting on a non-empty store, or a series that both spills and falls below 10%; distinct = distinct case",
+        assumptions=["release-curve slopes <= 1e-4 (m^3/s)/m^3 and zero release at zero volume, so that the model's minimum sub-timestep (6 s) can follow the draw-down (otherwise the kernel panics by design)",
+                     "within a step the volume moves monotonically between its end values (constant forcing, autonomous 1-D dynamics)"],
+        quick=dict(stages=[st(1500, timeout=900)]),
+        thorough=dict(stages=[st(8000, shards=16, timeout=3000)]),
+    ),
+    "C16": dict(
+        pkg="c16", level="exploration",
+        rule="rapid-generated cases for 20 partition / conversion / generation models (inputs including zero and, for the arithmetic models, negative values; fractions and scale factors also outside [0,1]; rating-table inputs at the end points, at knots and inside); "
+             "oracle: closed-form reference per model (partition, scale, delivery ratio, depth-to-rate mm*1e-3*area/dt, gate, sum, pass-through, proportion, demand split), identities (outputs sum to input; total = quick + slow; fine share = fine fraction; delivered = generated x ratio/100; zero driver -> zero load; loads >= 0), closed forms for bank erosion and gully generation, and linearity in flow (metamorphic x c) for the concentration-based generators; 1e-12 relative. "
+             "Non-trivial = the series has both a zero and a non-zero driver step; distinct = distinct case",
+        assumptions=["outside its rating table RatingCurvePartition panics in the cell goroutine (C18 covers the error contract of the interpolation); inputs are generated inside the table"],
+        quick=dict(stages=[st(5000, timeout=900)]),
+        thorough=dict(stages=[st(15000, shards=16, timeout=3000)]),
+    ),
+    "C18": dict(
+        pkg="c18", level="exploration",
+        rule="FindRoot: rapid-generated continuous functions (monotone piecewise-linear with flat pieces and kinks, power and exponential families, non-monotone waves with f(min)<0<f(max)), any initial guess, tolerance 1e-12..1, iteration limit 0..60, derivative none/exact/wrong/zero, convergence limit arbitrary or small enough not to pre-empt halving; every evaluation point recorded: inside [min,max] and not NaN, returned x inside, returned value == f(x), monotone: |value| <= better end, and < tolerance whenever the limit >= ceil(log2(L*(max-min)/tol))+1 (tolerance resolvable in floating point). "
+             "Piecewise: strictly increasing tables of 2..12 knots (also as stepped views), queries at knots, between, just outside, far outside, NaN, +-Inf: error exactly outside/NaN, knots within 4 ulp, interpolant within 1e-12 and between the neighbouring values. Non-trivial = root search of >= 3 iterations or non-monotone function / query strictly between knots; distinct = distinct case",
+        assumptions=["classes where a bracket end is already within the tolerance, or the iteration limit is 0, only assert: point inside, value = f(point), evaluations inside"],
+        quick=dict(stages=[st(10000, timeout=900)]),
+        thorough=dict(stages=[st(100000, shards=16, timeout=3000)]),
+    ),
+    "C20": dict(
+        pkg="c20", level="exploration",
+        rule="rapid-generated (elevation 0..10000 m, 1-20 pairs of points per case: temperature pairs T1<T2 at equal humidity incl. adjacent floats, 1e-9..1e-3 apart and straddling 0 C; humidity pairs at equal temperature; temperatures dense around 0 and integers, humidities dense near 0 and 100); "
+             "oracle: outputs finite, vapour pressure > 0 and strictly increasing for T2-T1 >= 1e-6 (non-decreasing for closer pairs), dew point <= wet bulb <= dry bulb, deltaT == dry - wet, dew point non-decreasing in humidity. Non-trivial = a pair straddling freezing or humidity >= 99 or <= 1; distinct = distinct case",
+        assumptions=[],
+        quick=dict(stages=[st(3000, timeout=900)]),
+        thorough=dict(stages=[st(40000, shards=16, timeout=3000)]),
+    ),
 }
